@@ -167,6 +167,22 @@ def _adddialer_fail_detaches(fl):
     return []
 
 
+
+# addConn / addDialer: the table-limit refusal (fd >= len(connsUnix) => closeWithError, return) comes before the conn
+# gets its poller (c.p = p): closeWithError then does NOT reach deleteConn, which would index the table with that fd
+def _limit_refusal_before_poller(fl):
+    cls = _lines(fl, "call", "c.closeWithError")
+    pw = _lines(fl, "access", "c.p", write=True)
+    tbl = [f["line"] for f in fl if f["kind"] == "access" and f["expr"] == "recv.g.connsUnix" and f.get("write")]
+    if not cls or not pw or not tbl:
+        return ["table-limit refusal: closeWithError / c.p write / table store not found"]
+    problems = []
+    if not cls[0] < pw[0]:
+        problems.append("the conn gets its poller (c.p = p, line %d) before the table-limit refusal (closeWithError, line %d): the refusal would run deleteConn with an fd outside the table" % (pw[0], cls[0]))
+    if not pw[0] < min(tbl):
+        problems.append("the table store precedes c.p = p")
+    return problems
+
 # ---- nbhttp engine (Model/HttpStop.lean)
 
 # closeAllConns: the whole sweep is one critical section of engine.mux (model: `sweep` is atomic w.r.t. insert/delete)
@@ -398,6 +414,8 @@ C18_CS = [
     cs.CLOSE[0],                  # closeWithError: test-and-set (model: `flip`), teardown after the unlock
     cs_conc.cs_conn_close_flip,
     cs_conc.cs_timer_async,       # the Async queue is ExecQ's async instance
+    _custom("adddialer_limit_refusal_before_poller", "poller_epoll.go", "nbio.poller.addDialer", _limit_refusal_before_poller),
+    _custom("addconn_limit_refusal_before_poller", "poller_epoll.go", "nbio.poller.addConn", _limit_refusal_before_poller),
 ] + C18_HTTP_CS
 
 
